@@ -290,11 +290,63 @@ fn placements(n: usize) -> Vec<Vec<usize>> {
     }
 }
 
+/// `n` segments (optionally behind a checkpoint), segment i holding key i (a key of its own) and a new value of the
+/// shared key 0 stamped i+1: recovery must return every key and the shared key's newest value, for every n.
+fn many_segments_case(n: usize, with_checkpoint: bool) -> Option<(String, String)> {
+    let layout = Layout {
+        checkpoint: if with_checkpoint { Some(vec![Upd { key: 250, kind: Kind::SetA, time: 1, replica: 1 }]) } else { None },
+        segments: (0..n)
+            .map(|i| vec![Upd { key: (i % 200) as u8 + 1, kind: Kind::SetA, time: i as u64 + 2, replica: 1 }, Upd { key: 0, kind: if i % 2 == 0 { Kind::SetA } else { Kind::SetB }, time: i as u64 + 2, replica: 2 }])
+            .collect(),
+    };
+    let mut want = Fold::new();
+    for u in layout.all_updates() {
+        fold_into(&mut want, &u.delta());
+    }
+    let store = build_store(&layout);
+    let rm = RecoveryManager::new(VObjStore::from_image(&store.image_now()), PREFIX, 1);
+    let empty_wal = WalRotator::new(VWalStore::new(), 1 << 30).expect("rotator");
+    for (entry, res) in [("recover", block_on(rm.recover())), ("recover_with_wal", block_on(rm.recover_with_wal(&empty_wal)))] {
+        let got = match res {
+            Ok(r) => {
+                let mut f: Fold = r.checkpoint_state.map(|m| m.into_iter().collect()).unwrap_or_default();
+                for d in &r.deltas {
+                    fold_into(&mut f, d);
+                }
+                f
+            }
+            Err(e) => return Some((format!("{entry} error many-segments"), format!("{n} segments{}: {e}", if with_checkpoint { " behind a checkpoint" } else { "" }))),
+        };
+        if projection(&got) != projection(&want) {
+            let (pg, pw) = (projection(&got), projection(&want));
+            let k = pw.keys().chain(pg.keys()).find(|k| pg.get(*k) != pw.get(*k)).unwrap();
+            return Some((
+                format!("{entry}!=merge many-segments"),
+                format!("{n} segments{} (segment i holds its own key and a new value of the shared key k0): key {k}: {entry}() folds to {:?}, the merge of everything persisted is {:?}; {} of {} keys recovered", if with_checkpoint { " behind a checkpoint" } else { "" }, pg.get(k), pw.get(k), pg.len(), pw.len()),
+            ));
+        }
+    }
+    None
+}
+
 fn main() {
     let args = cli::parse_args();
     vh::quiet_panics();
     if let Some(path) = &args.replay {
         let r = vh::report::load_replay(path);
+        if r["many_segments"] == json!(true) {
+            match many_segments_case(r["n"].as_u64().unwrap() as usize, r["checkpoint"].as_bool().unwrap_or(false)) {
+                Some((sig, detail)) => {
+                    println!("{sig}: {detail}");
+                    println!("VIOLATION property=C11 replay={}", path.display());
+                    std::process::exit(1);
+                }
+                None => {
+                    println!("replay: no violation");
+                    std::process::exit(0);
+                }
+            }
+        }
         let case = Case {
             updates: r["updates"].as_array().unwrap().iter().map(|x| Upd { key: x[0].as_u64().unwrap() as u8, kind: Kind::ALL[x[1].as_u64().unwrap() as usize], time: x[2].as_u64().unwrap(), replica: x[3].as_u64().unwrap() }).collect(),
             place: r["place"].as_array().unwrap().iter().map(|x| x.as_u64().unwrap() as usize).collect(),
@@ -349,6 +401,21 @@ fn main() {
             }
         }
     });
+    // many segments: every count 1..=40 and the neighbours of 64, 128 and 256 (a window, batch or chunk size lives there)
+    let mut counts: Vec<usize> = (1..=40).collect();
+    counts.extend([63, 64, 65, 127, 128, 129, 255, 256, 257]);
+    let many: Vec<(usize, bool)> = counts.iter().flat_map(|n| [(*n, false), (*n, true)]).collect();
+    let many_res = par::par_map(&many, |_, (n, cp)| many_segments_case(*n, *cp));
+    {
+        let mut seen = BTreeSet::new();
+        for ((n, cp), r) in many.iter().zip(many_res) {
+            if let Some((sig, detail)) = r {
+                if seen.insert(sig.clone()) {
+                    rep.violation(sig, detail, json!({"many_segments": true, "n": n, "checkpoint": cp}));
+                }
+            }
+        }
+    }
     let sample = Case { updates: usable[usable.len() / 2].clone(), place: place_cache[usable[usable.len() / 2].len()].last().unwrap().clone(), dup: None };
     let coverage = json!({
         "evaluations": cases_n.load(Ordering::Relaxed),
@@ -357,6 +424,8 @@ fn main() {
         "update_sets": sets.len(),
         "update_sets_excluded_order_dependent_merge": excluded,
         "cases": cases_n.load(Ordering::Relaxed),
+        "many_segment_cases": many.len(),
+        "many_segment_rule": "n segments for every n in 1..=40 and the neighbours of 64, 128, 256, without and behind a checkpoint; segment i holds a key of its own and a new value of a shared key: recover() and recover_with_wal() must return every key and the shared key's newest value",
         "cases_applied_to_a_real_node": node_n.load(Ordering::Relaxed),
         "samples": [sample.json()],
         "exhaustive": true,
